@@ -2125,7 +2125,7 @@ func init() {
 			"StdEng).Dot", "StdEng).MatMul", "StdEng).MatVecMul", "StdEng).Inner", "StdEng).Outer", ").UT", ").T", ").Clone", ").Materialize", ").Slice", ").At", "whichblas"},
 		Bounds: map[string]interface{}{
 			"reduction": "one goroutine's program (one read-only operation of the menu) is executed symbolically after a barrier; every object that exists at the barrier and is reachable from the shared operands or from a package global is shared. Obligations (at the access, over every feasible path, elements symbolic): no store into a shared operand (not even a temporary one); no store into library-global state outside a mutex; across the menu, nothing read outside a mutex is written by any menu operation; no object is put into a pool (sync.Pool or channel pool) in which it is already parked (it would be handed to two goroutines). Races are pairwise and need a write, so these three facts exclude a race between any number of goroutines running menu operations on shared read-only operands and private tensors, and with no shared location written each goroutine computes its sequential result.",
-			"menu":      "At, Slice, Slice+At, iteration, Add, AddScalar, Mul, Gt, ElEq(as same type), Neg, Sqrt, Sum (all / axis), Max, Argmax, Argmin(all), MatMul, MatVecMul, Inner, Outer, Dot (mm, mv, vm, vv), TensorMul, Clone, Materialize, SafeT, Transpose/T (api, copying), Concat, Stack, Repeat, Reshape of a clone, Apply, Eq, CopyTo/Copy into a private tensor, Norm (unordered, Frobenius, 1, 2 along an axis), Outer into a column-major destination; and on private clones: Add with reuse / reuse of another shape / incr / unsafe, scalar Mul and Gt with reuse, T+UT, Transpose, Reshape, SetAt, Zero of a slice, ReturnTensor",
+			"menu":      "At, Slice, Slice+At, iteration, Add, AddScalar, Mul, Gt, ElEq(as same type), Neg, Sqrt, Sum (all / axis), Max, Argmax, Argmin(all), MatMul, MatVecMul, Inner, Outer, Dot (mm, mv, vm, vv), TensorMul, Clone, Materialize, SafeT, Transpose/T (api, copying), Concat, Stack, Repeat, Reshape of a clone, Apply, Eq, CopyTo/Copy into a private tensor, Norm (unordered, Frobenius, 1, 2 along an axis), Outer into a column-major destination, every tensor-scalar arithmetic / comparison method (both operand orders); and on private clones: Add with reuse / reuse of another shape / incr / unsafe, scalar Mul and Gt with reuse, T+UT, Transpose, Reshape, SetAt, Zero of a slice, ReturnTensor",
 			"operands":  "float64, shapes <= (2,3)/(3,2), first operand C / lazily transposed / sliced view, second operand C / transposed / sliced",
 			"atomic_by_contract": "sync.Pool Get/Put, channel send/receive/select, sync.Mutex - the executor's intrinsics; their internals and the Go memory model are trusted",
 			"native_confirmation": "a counterexample is replayed as 4 goroutines x 25 runs of the operation over the same operands under the race detector (go test -race); only a reported DATA RACE counts",
@@ -2137,6 +2137,7 @@ func init() {
 			ops := []string{"At", "Slice", "SliceAt", "Iterate", "Add", "AddScalar", "Mul", "Gt", "ElEq", "Neg", "Sqrt", "Sum", "Sum0", "Max1", "Argmax", "ArgminAll", "MatMul", "MatVecMul", "Inner", "Outer",
 				"Dot-mm", "Dot-mv", "Dot-vm", "Dot-vv", "TensorMul", "Clone", "Materialize", "SafeT", "Transpose-api", "T-api", "Concat", "Stack", "Repeat", "Reshape-clone", "Apply", "Eq", "CopyTo", "Copy-api",
 				"Norm-unordered", "Norm-fro", "Norm2-axis", "Norm1", "Outer-reuseF", "Concat-rowvec",
+				"SubScalar", "SubScalar-left", "MulScalar", "DivScalar", "DivScalar-left", "PowScalar", "ModScalar", "GtScalar", "LteScalar-left", "ElEqScalar",
 				"Priv-AddReuse", "Priv-AddReuseReshape", "Priv-AddIncr", "Priv-AddUnsafe", "Priv-ScalarReuse", "Priv-GtReuse", "Priv-T-UT", "Priv-Transpose", "Priv-Reshape", "Priv-SetAt", "Priv-SliceZero", "Priv-ReturnTensor"}
 			ringOps := map[string]bool{"Outer-reuseF": true, "Sum": true, "Sum0": true, "MatMul": true, "MatVecMul": true, "Inner": true, "Outer": true, "Dot-mm": true, "Dot-mv": true, "Dot-vm": true, "Dot-vv": true, "TensorMul": true}
 			lays := []string{"C", "T", "S"}
